@@ -125,6 +125,7 @@ def gen_knobs(rng, tier):
         "big_ids": rng.random() < 0.3,          # ids of large workspaces (extern ids start above 10^8; int64 arithmetic wraps near 9.2e18)
         "p_numpy": rng.choice([0.0, 0.0, 0.3]),  # call sites whose ids are numpy integers (ids read from tables are)
         "persist_max_rows": rng.choice([1, 2, 3, 400000, 400000]),
+        "p_steps": rng.choice([0.0, 0.3, 0.6]),    # path objects built call by call (as the analysis does) instead of from a tuple
         "w_persist": rng.choice([0, 0, 1, 2]),      # save the stored paths through the call-path loader, export, restore, re-seed a new store
     }
 
@@ -195,6 +196,8 @@ def generate(rng, k):
                 p = p[:i] + (rng.choice(NEG_SITES),) + p[i + 1:]
             m.add(p)
             ops.append({"op": "add", "p": [list(s) for s in p]})
+            if rng.random() < k.get("p_steps", 0):
+                ops[-1]["style"] = "steps"
             if rng.random() < k.get("p_numpy", 0):
                 ops[-1]["np"] = True
         elif kind == "remove":
@@ -205,16 +208,27 @@ def generate(rng, k):
                 p = _biased_path(rng, k, m)
             m.remove(p)
             ops.append({"op": "remove", "p": [list(s) for s in p]})
+            if rng.random() < k.get("p_steps", 0):
+                ops[-1]["style"] = "steps"
         else:
             p = _biased_path(rng, k, m)
             ops.append({"op": "exists", "p": [list(s) for s in p]})
+            if rng.random() < k.get("p_steps", 0):
+                ops[-1]["style"] = "steps"
     return ops
 
 
 # ----------------------------------------------------------------------------- executor + oracle
 
-def _mk(p, k=None, np_ids=False):
+def _mk(p, k=None, np_ids=False, style="tuple"):
+    """style: how the path object comes into being - "tuple" (CallPath(tuple), what a restore and most callers do),
+    "steps" (an empty path extended call by call with add_callsite / add_call, what the analysis does)"""
     k = k or {}
+    if style == "steps" and not np_ids:
+        cp = _cs.CallPath()
+        for i_, s in enumerate(p):
+            cp = cp.add_call(*_site(s, k)) if i_ % 2 else cp.add_callsite(_cs.CallSite(*_site(s, k)))
+        return cp
     if np_ids:
         import numpy
         return _cs.CallPath(tuple(_cs.CallSite(*[numpy.int64(x) for x in _site(s, k)]) for s in p))
@@ -318,7 +332,7 @@ def execute(trace):
                 p = _t(op["p"])
                 size_before = len(m.S)
                 exp, rel = m.add(p)
-                obs = pm.add_path(_mk(p, k, op.get("np")))
+                obs = pm.add_path(_mk(p, k, op.get("np"), style=op.get("style", "tuple")))
                 if op.get("np"):
                     hit("numpy_ids")
                 trans.add(h64(f"{min(size_before, 4)}|{rel}|add|{exp}"))
@@ -343,7 +357,7 @@ def execute(trace):
                 p = _t(op["p"])
                 size_before = len(m.S)
                 exp = m.remove(p)
-                obs = pm.remove_path(_mk(p, k))
+                obs = pm.remove_path(_mk(p, k, style=op.get("style", "tuple")))
                 trans.add(h64(f"{min(size_before, 4)}|{'in' if exp else 'out'}|remove|{exp}"))
                 if exp:
                     hit("remove_hit")
@@ -355,7 +369,7 @@ def execute(trace):
             elif kind == "exists":
                 p = _t(op["p"])
                 exp = p in m.S
-                obs = pm.path_exists(_mk(p, k))
+                obs = pm.path_exists(_mk(p, k, style=op.get("style", "tuple")))
                 if bool(obs) != exp:
                     violation = fail(step, "exists", exp, obs, op)
             elif kind == "persist":
